@@ -315,3 +315,12 @@ fn test_empty() {
     let (cw, _) = GenericDataEncoder::codewords(&mut enc).unwrap();
     assert_eq!(cw, vec![ascii::PAD, 175, 70]);
 }
+
+/// Access for the external verification harness: the codewords `write_eci` appends.
+#[cfg(datamatrix_verif)]
+pub(crate) fn verif_write_eci(c: u32) -> Vec<u8> {
+    let symbols = crate::SymbolList::default();
+    let mut encoder = GenericDataEncoder::with_size(&[], &symbols, EncodationType::all(), false);
+    encoder.write_eci(c);
+    encoder.codewords
+}
